@@ -1,12 +1,138 @@
-"""C28 -- Template flattening never lets content become markup: bounded stand-in (contracts/parts/C28_bounded.py); deductive contracts may be added later."""
-from contracts._parts import bounded, EXPLORATION_NOTE
+"""C28 -- Template flattening never lets content become markup.
 
-CONTRACTS = []
+Deductive, byte by byte (all 256 values, symbolically), on the two escaping functions that every piece of text content
+and every attribute value goes through:
+
+  escapeForContent          a byte comes out as itself, or as `&amp;` / `&lt;` / `&gt;`: the output never contains `<` or
+                            `>`, and an `&` in it always begins one of those three entities;
+  writeWithAttributeEscaping  additionally `"` comes out as `&quot;`: the output never contains `"`, `<` or `>`.
+bytes.replace with a one-byte pattern acts on every byte independently, so the per-byte table is what happens to every
+byte of a longer string (that composition, comments, CDATA sections, slots, renderers and the HTML5 reading of the
+output are the bounded tier's business).
+Bounded (contracts/parts/C28_bounded.py): flattenString output re-parsed by expat and an HTML5 tokenizer.
+"""
+from pyvc.api import *
+from pyvc import core
+from contracts._parts import bounded
+from twisted.web import _flatten
+
+AMP, LT, GT, QUOT = b"&", b"<", b">", b'"'
+
+
+def table(b, truth, attribute):
+    if truth(veq(b, AMP)):
+        return b"&amp;"
+    if truth(veq(b, LT)):
+        return b"&lt;"
+    if truth(veq(b, GT)):
+        return b"&gt;"
+    if attribute and truth(veq(b, QUOT)):
+        return b"&quot;"
+    return b
+
+
+class EscapeContentByte(Contract):
+    prop = "C28"
+    module = "twisted.web._flatten"
+    function = "escapeForContent"
+    differential = False
+    inputs = dict(b=Bytes(maxlen=1, minlen=1, small_len=1))
+    trusted = ["bytes.replace with a one-byte pattern acts on every byte independently (the per-byte table is the function)"]
+
+    def setup(self, i):
+        return dict(fn=_flatten.escapeForContent, args=[i.b])
+
+    def bounded_inputs(self, tier):
+        return iter(())
+
+    raises = ()
+
+    def _table(S):
+        truth = S.ghost["$interp"].truth
+        out = S.result
+        return band(veq(out, table(S.i.b, truth, False)), bnot(core.seq_contains(out, LT)), bnot(core.seq_contains(out, GT)))
+
+    ensures = dict(markup_bytes_become_entities_everything_else_is_itself=_table)
+    canaries = [("data = data.replace(b\"&\", b\"&amp;\").replace(b\"<\", b\"&lt;\").replace(b\">\", b\"&gt;\")",
+                 "data = data.replace(b\"<\", b\"&lt;\").replace(b\"&\", b\"&amp;\").replace(b\">\", b\"&gt;\")",
+                 "markup_bytes_become_entities_everything_else_is_itself"),
+                ("data = data.replace(b\"&\", b\"&amp;\").replace(b\"<\", b\"&lt;\").replace(b\">\", b\"&gt;\")",
+                 "data = data.replace(b\"&\", b\"&amp;\").replace(b\"<\", b\"&lt;\")", "markup_bytes_become_entities_everything_else_is_itself")]
+
+
+class EscapeAttributeByte(Contract):
+    prop = "C28"
+    module = "twisted.web._flatten"
+    function = "writeWithAttributeEscaping"
+    also = ["escapeForContent"]
+    differential = False
+    calls = {"sink.__call__": lambda I, obj, *a, **kw: ctx().emit("write", obj, a)}
+    inputs = dict(b=Bytes(maxlen=1, minlen=1, small_len=1))
+    trusted = EscapeContentByte.trusted + ["the underlying write callable is a recorded call-out"]
+
+    def setup(self, i):
+        sink = self.opaque("sink")
+
+        def drive(call):
+            w = call(_flatten.writeWithAttributeEscaping, None, sink)
+            return call(w, None, i.b)
+        return dict(drive=drive, ghost=dict(sink=sink))
+
+    def bounded_inputs(self, tier):
+        return iter(())
+
+    raises = ()
+
+    def _table(S):
+        w = [e for e in S.trace if e.name == "write"]
+        if len(w) != 1:
+            return False
+        truth = S.ghost["$interp"].truth
+        out = w[0].args[0]
+        return band(veq(out, table(S.i.b, truth, True)), bnot(core.seq_contains(out, LT)), bnot(core.seq_contains(out, GT)),
+                    bnot(core.seq_contains(out, QUOT)))
+
+    ensures = dict(written_once_with_quote_and_markup_bytes_as_entities=_table)
+    canaries = [("write(escapeForContent(data).replace(b'\"', b\"&quot;\"))", "write(escapeForContent(data))", "written_once_with_quote_and_markup_bytes_as_entities")]
+
+
+class EscapedCommentShort(Contract):
+    """comment data of up to five arbitrary bytes: what is put between `<!--` and `-->` can neither close the comment
+    itself nor merge with the closing delimiter (seeded changes C28-1, C28-2)"""
+    prop = "C28"
+    module = "twisted.web._flatten"
+    function = "escapedComment"
+    differential = False
+    inputs = dict(data=Bytes(maxlen=5, alphabet=b"->a", small_len=4))
+    trusted = ["bytes.replace of a three-byte pattern in a value shorter than six bytes substitutes its only possible occurrence",
+               "comment data of at most five bytes (stated bound; longer data: bounded tier)"]
+
+    def setup(self, i):
+        return dict(fn=_flatten.escapedComment, args=[i.data])
+
+    def bounded_inputs(self, tier):
+        return iter(())
+
+    raises = ()
+    ensures = dict(cannot_end_the_comment=lambda S: band(bnot(core.seq_contains(S.result, b"-->")), bnot(core.seq_endswith(S.result, b"-"))),
+                   only_the_documented_rewrites=lambda S: bor(veq(S.result, S.i.data), core.seq_contains(S.i.data, b"-->"), core.seq_endswith(S.i.data, b"-")))
+    canaries = [("    if data and data[-1:] == b\"-\":\n        data += b\" \"\n", "", "cannot_end_the_comment"),
+                ("data = data.replace(b\"-->\", b\"--&gt;\")", "pass", "cannot_end_the_comment")]
+
+
+CONTRACTS = [EscapeContentByte, EscapeAttributeByte, EscapedCommentShort]
 BOUNDED = bounded("C28")
-NOTES = dict(explanation='flattenString output re-parsed with expat (XML) and an independent WHATWG-spec HTML5 tokenizer: hostile two-token strings in 13 contexts, all delivery paths (lists, Deferreds, slots, renderers), all CDATA / comment data up to 5 characters over their metacharacters, seeded random trees', not_covered=["deductive contracts on the anchored functions (not built)"])
+_SCOPE = ('flattenString output re-parsed with expat (XML) and an independent WHATWG-spec HTML5 tokenizer: hostile two-token strings in 13 contexts, all delivery paths (lists, Deferreds, slots, renderers), all CDATA / comment data up to 5 characters over their metacharacters, seeded random trees')
+NOTES = dict(explanation="the two escaping functions proved byte by byte for all 256 values; trees, comments, CDATA and re-parsing bounded: " + _SCOPE,
+             not_covered=["the composition over longer strings (bytewise replace), escapedComment / escapedCDATA (multi-byte patterns), "
+                          "_flattenElement's choice of escaper per context, slots / renderers / Deferreds: bounded tier only"])
 MANIFEST = dict(
-    category="exploration",
-    text="Bounded stand-in only, on the real code: " + 'flattenString output re-parsed with expat (XML) and an independent WHATWG-spec HTML5 tokenizer: hostile two-token strings in 13 contexts, all delivery paths (lists, Deferreds, slots, renderers), all CDATA / comment data up to 5 characters over their metacharacters, seeded random trees' + ".",
-    note=EXPLORATION_NOTE,
-    technique="bounded exhaustive evaluation of an executable contract on the real code (stand-in; not proved)",
+    category="proof",
+    text="For every byte value, escapeForContent returns the byte itself or `&amp;` / `&lt;` / `&gt;` and never an output "
+         "containing `<` or `>`; the write wrapper used inside attribute values additionally turns `\"` into `&quot;` and "
+         "writes exactly once.  bytes.replace with a one-byte pattern is bytewise, so this table is what happens to every byte of "
+         "any text.  Which escaper is applied where, comments, CDATA sections, slots, renderers and whether the flattened "
+         "document parses back to the same structure are exercised in the bounded tier only: " + _SCOPE + ".",
+    note="Trusted: pyvc, SMT solvers, bytewise replace.  Everything else: bounded, never counted as proved.",
+    technique="contract-based deductive verification (complete symbolic case analysis per byte, SMT sequences) + bounded exhaustive hostile trees re-parsed by two independent parsers",
 )
